@@ -418,6 +418,17 @@ func (d *driver) evalWAL(dir string, wc *walCase) {
 			bs = sel
 		}
 		for _, s := range bs {
+			if sc, ok := wc.Desc.(*synthCase); ok && sc.Sparse && s > 0 {
+				// A sparse grow takes the content of an unwritten page from a frame
+				// before an earlier shrink. With a resume position behind that frame
+				// the page is no longer part of "the committed frames from that
+				// position" (the base was truncated when the shrink was
+				// checkpointed), so the whole-WAL reference used by this harness is
+				// not the expectation the property states. Such WALs are judged from
+				// frame 0 only, in both scan modes.
+				c.Count("boundaries_not_used_sparse_grow", 1)
+				continue
+			}
 			one(s, false)
 		}
 	}
